@@ -67,6 +67,12 @@ theorem op_agree (b : Bufs) (op : Op) (s : MStream) : OpAgree b op s := by
     refine agree_of_outs rfl rfl ?_
     have := map_acts .buffer id (fun p => by simp [stepOp, mapStep]) rfl s
     simpa [initCtl] using this
+  | trace =>
+    refine agree_of_outs rfl rfl ?_
+    have := map_acts .trace id (fun p => by simp [stepOp, mapStep]) rfl s
+    simpa [initCtl, trace] using this
+  | mapText f =>
+    exact agree_of_outs rfl rfl (map_acts (.mapText f) _ (fun p => by simp [stepOp, mapStep]) rfl s)
   | empty => exact agree_of_outs rfl rfl (empty_acts s false)
   | remove => exact agree_of_outs rfl rfl (remove_acts s [])
   | unwrap => exact agree_of_outs rfl rfl (unwrap_acts s)
@@ -547,6 +553,8 @@ theorem stagewise_segs : ∀ (ops : List Op) (w r : List Nat), stagewise w r ops
     | mapBang all => exact other rfl (hsegs (fun _ => by simp)) rfl
     | subst p r' n => exact other rfl (hsegs (fun _ => by simp)) rfl
     | filter f => exact other rfl (hsegs (fun _ => by simp)) rfl
+    | mapText f => exact other rfl (hsegs (fun _ => by simp)) rfl
+    | trace => exact other rfl (hsegs (fun _ => by simp)) rfl
 
 /-- The lazily evaluated chain gives exactly what its stage-wise reading gives — the same marked
     stream, the same buffers, failure exactly when it fails — for every chain in which, between two
